@@ -28,8 +28,8 @@ CFG = dict(
           "(one per rectangle / destination type / device / view); distinct_nontrivial = (file, rectangle) pairs, (file, "
           "destination type), (file, device), (file, arena placement) -- distinct by construction; every one reads >= 1 pixel."),
     exhaustive={"quick": False, "thorough": False},
-    exhaustive_domain={"quick": "all sub-rectangles of the <=8x8 files (6 sizes per native type); edge + 2 seeded per axis class for larger files",
-                       "thorough": "all sub-rectangles of the <=8x8 files; edge + 6 seeded per axis class for larger files; plus the 1000x600 fixtures"},
+    exhaustive_domain={"quick": "all sub-rectangles of the <=8x8 files (6 sizes per native type and format); edge values + 2 seeded per axis class for the larger files (fixtures, 33x17, 18x9)",
+                       "thorough": "all sub-rectangles of the <=8x8 files (14 sizes per native type and format); edge values + 10 seeded per axis class for the larger files (fixtures incl. the 1000x600 ones, 8 generated sizes)"},
     types=["bmp: rgb8 rgba8 (palette 1/4/8 bit, RLE4/8, OS/2, 555/565 bitfields, 24, 32, top-down)",
            "pnm: gray8 rgb8 gray1 (P1-P6)", "targa: rgb8 rgba8 (raw/RLE x both origins)",
            "png: gray1 gray2 gray4 gray8 gray16 rgb8 rgb16 rgba8 rgba16 (palette, tRNS, Adam7)", "jpeg: gray8 rgb8 cmyk8",
